@@ -881,6 +881,67 @@ def frame_allowed(k, name, cname):
     return set()
 
 
+def expected_after(op, before, m):
+    """documentation-derived oracle for the re-normalising setters: which ratios / angles / main length scale the
+    model must hold after a successful `anis`, `angles`, `len_scale` or `dim` assignment (pad rules, edge padding,
+    lat-lon isotropy, no rotation with the time axis); returns a list of complaints"""
+    k = op["k"]
+    d, t, ll = int(m.dim), int(m.temporal), bool(m.latlon)
+    na = d * (d - 1) // 2
+    bad = []
+
+    def iso(a):
+        a = list(a)
+        if ll:
+            a[:2] = [1.0] * min(2, len(a))
+        return a
+
+    def ang(v):
+        if ll:
+            return [0.0] * na
+        v = list(v)[:na]
+        v = v + [0.0] * (na - len(v))
+        if t:
+            k0 = (d - 1) * (d - 2) // 2
+            v = v[:k0] + [0.0] * (na - k0)
+        return v
+
+    def pad_anis(v):
+        v = list(v)[: d - 1]
+        return [1.0] * (d - 1 - len(v)) + v
+
+    if k == "anis":
+        want = iso(pad_anis(op["vs"]))
+        if not vclose([float(x) for x in m.anis], want):
+            bad.append(f"anis {list(m.anis)} != {want}")
+        if not vclose(float(m.len_scale), before["len_scale"]):
+            bad.append("len_scale changed")
+    elif k == "angles":
+        want = ang(op["vs"])
+        if not vclose([float(x) for x in m.angles], want):
+            bad.append(f"angles {list(m.angles)} != {want}")
+    elif k == "len_scale":
+        v = list(op["vs"])[:d]
+        if not vclose(float(m.len_scale), float(v[0])):
+            bad.append(f"len_scale {m.len_scale} != {v[0]}")
+        if len(v) > 1:
+            v = v + [v[-1]] * (d - len(v))
+            want = iso([x / v[0] for x in v[1:]])
+        else:
+            want = before["anis"]
+        if not vclose([float(x) for x in m.anis], want):
+            bad.append(f"anis {list(m.anis)} != {want}")
+    elif k == "dim":
+        want = pad_anis(before["anis"])
+        if ll:
+            want = before["anis"]
+        if not vclose([float(x) for x in m.anis], want):
+            bad.append(f"anis {list(m.anis)} != {want}")
+        if not vclose([float(x) for x in m.angles], ang(before["angles"])):
+            bad.append(f"angles {list(m.angles)} != {ang(before['angles'])}")
+    return bad
+
+
 def sgen_value(rng, kind):
     if rng.rand() < 0.5:
         return float(pick(rng, DYAD))
@@ -1038,9 +1099,11 @@ def history_search(ctx, n_hist, n_ops):
                     arg = py_in_bounds(m)
                     if arg is not None:
                         add("accepted-state-out-of-bounds:" + arg, f"after `{op}` the value of {arg} is outside its bounds", case)
-                # (4) derived quantities
+                # (4) derived quantities, and the documented re-normalisation rules
                 for b in derived_ok(m):
                     add("derived:" + b, f"after `{op}`: inconsistent {b}", case)
+                for b in expected_after(op, before, m):
+                    add("renormalisation:" + op["k"], f"after `{op}`: {b}", case)
                 # (5) an assignment changes nothing but its own parameter and the documented couplings
                 if op["k"] != "arg_bounds":
                     allowed = frame_allowed(op["k"], op.get("name"), cname)
@@ -1119,7 +1182,7 @@ def boundary_search(ctx):
     return ev, viol
 
 
-def directed_search():
+def _directed_search():
     """the known findings as fixed replays on the real code (D13, D8) + the fixed D7"""
     import gstools as gs
     viol, ev = [], 0
@@ -1182,6 +1245,15 @@ def directed_search():
         viol.append({"key": "latlon-temporal-len-scale-resets-time-anis", "what": f"time anisotropy {m.anis} / {m2.anis} after len_scale / integral_scale",
                      "case": {"cls": "Exponential"}})
     return ev, viol
+
+
+def directed_search():
+    try:
+        with warnings.catch_warnings():
+            warnings.simplefilter("ignore")
+            return _directed_search()
+    except Exception as ex:   # the replays use plain default models; they must construct
+        return 1, [{"key": "directed-replay-exception", "what": f"{type(ex).__name__}: {ex}", "case": {}}]
 
 
 def search(ctx, deep=False):
